@@ -22,6 +22,7 @@ EMPTYMODE = False
 # every third history: a received flowspec / VPNv4 UPDATE also carries, in its classic Withdrawn Routes field, an IPv4 prefix
 # that was never announced (one UPDATE for two address families; for the IPv4 table that withdrawal changes nothing)
 MIXED = False
+TWOCOMP = False      # every fourth history: received flowspec rules have two components, withdrawals list them in reverse order
 XCOMM = False        # every fifth history: REST announcements carry extended communities (see rest_body)
 
 
@@ -66,13 +67,18 @@ def peer_update(f, wd, nl, a):
         return wire.update(withdrawn=b''.join(wire.prefix4(P[k][0], P[k][1]) for k in wd), attrs=attrs,
                            nlri=b''.join(wire.prefix4(P[k][0], P[k][1]) for k in nl))
     if f == 'flowspec':
-        def rules(ks):
+        def rules(ks, withdraw=False):
             out = b''
             for k in ks:
                 comp = b'\x01\x18' + bytes(F[k][0])
+                if TWOCOMP:
+                    # rules of two components (destination and source prefix); a withdrawal may list them in the other order -
+                    # it still names the same rule
+                    src = b'\x02\x08\x0a'
+                    comp = (src + comp) if withdraw else (comp + src)
                 out += bytes([len(comp)]) + comp
             return out
-        un = wire.attr(0x80, 15, struct.pack('!HB', 1, 133) + rules(wd)) if wd else b''
+        un = wire.attr(0x80, 15, struct.pack('!HB', 1, 133) + rules(wd, True)) if wd else b''
         if nl:
             return wire.update(withdrawn=MIXWD(), attrs=BASE + med_attr(a) + wire.attr(0x80, 14, (struct.pack('!HBB', 1, 133, 4) + nh_of(a) if NHMODE else struct.pack('!HBB', 1, 133, 0)) + b'\x00' + rules(nl)) + un)
         return wire.update(withdrawn=MIXWD(), attrs=un)
@@ -189,7 +195,8 @@ class RibRun(object):
 
 
 def replay_walk(g, walk, tid):
-    global NHMODE, NESTED, EMPTYMODE, MIXED, XCOMM
+    global NHMODE, NESTED, EMPTYMODE, MIXED, XCOMM, TWOCOMP
+    TWOCOMP = (tid % 4 == 2)
     XCOMM = (tid % 5 == 3)
     MIXED = (tid % 3 == 1)
     NHMODE = bool(tid % 2)
